@@ -23,6 +23,7 @@ import (
 	"github.com/smart-core-os/sc-golang/pkg/trait/countpb"
 	"github.com/smart-core-os/sc-golang/pkg/trait/emergencypb"
 	"github.com/smart-core-os/sc-golang/pkg/trait/fanspeedpb"
+	"github.com/smart-core-os/sc-golang/pkg/trait/lightpb"
 	"github.com/smart-core-os/sc-golang/pkg/trait/modepb"
 	"github.com/smart-core-os/sc-golang/pkg/trait/onoffpb"
 	"github.com/smart-core-os/sc-golang/pkg/trait/speakerpb"
@@ -61,13 +62,22 @@ type trow struct {
 	New  func() tserver
 	// Effective: the message a request with the flag set asks to be written, given the stored one
 	// (specification of the flag; the harness' own arithmetic). nil = the written message itself
-	Effective func(before, written proto.Message) proto.Message
+	Effective func(before, written proto.Message, flag bool) proto.Message
 	// Derived: top-level fields the server's documented rules may set as a consequence of this write
 	// (they are not judged by the frame)
 	Derived func(before, after proto.Message) []string
 	// IntKeys: the flag is an integer delta on these top-level fields: the model's own delta
 	// interceptor is used in the tie (otherwise the model is handed Effective's message)
 	IntKeys []string
+	// R: paths the server documents it clears on every accepted write (a reset mask of its own)
+	R mt.Mask
+	// Prepare edits a generated request message so that it stays on the RPC's plain path
+	Prepare func(m proto.Message)
+	// MaskIgnored: recorded finding - the RPC does not hand the request's update_mask to the store.
+	// A request whose judgement fails with its mask but holds as the same request without a mask is
+	// reported under ONE signature (<site>/update-mask-ignored); anything that fails without the mask
+	// too is another defect and keeps its own signature
+	MaskIgnored bool
 	// Tie: the outcome is compared with the model (servers without validation of their own and
 	// without derived fields)
 	Tie bool
@@ -104,7 +114,10 @@ var trows = []trow{
 				},
 			}
 		},
-		Effective: func(before, written proto.Message) proto.Message {
+		Effective: func(before, written proto.Message, flag bool) proto.Message {
+			if !flag {
+				return written
+			}
 			b, w := before.(*traits.Count), proto.Clone(written).(*traits.Count)
 			w.Added += b.Added
 			w.Removed += b.Removed
@@ -130,7 +143,10 @@ var trows = []trow{
 				},
 			}
 		},
-		Effective: func(before, written proto.Message) proto.Message {
+		Effective: func(before, written proto.Message, flag bool) proto.Message {
+			if !flag {
+				return written
+			}
 			b, w := before.(*types.AudioLevel), proto.Clone(written).(*types.AudioLevel)
 			w.Gain += b.Gain
 			return w
@@ -184,7 +200,10 @@ var trows = []trow{
 				},
 			}
 		},
-		Effective: func(before, written proto.Message) proto.Message {
+		Effective: func(before, written proto.Message, flag bool) proto.Message {
+			if !flag {
+				return written
+			}
 			b, w := before.(*traits.FanSpeed), proto.Clone(written).(*traits.FanSpeed)
 			w.Percentage += b.Percentage
 			w.PresetIndex = clampInt32(int64(w.PresetIndex) + int64(b.PresetIndex))
@@ -264,7 +283,10 @@ func init() {
 		},
 		// relative: each named mode the model knows moves by the adjustment through its values, wrapping
 		// round; a mode without a (known) current value gets the first value
-		Effective: func(before, written proto.Message) proto.Message {
+		Effective: func(before, written proto.Message, flag bool) proto.Message {
+			if !flag {
+				return written
+			}
 			b, w := before.(*traits.ModeValues), proto.Clone(written).(*traits.ModeValues)
 			if w.Values == nil {
 				w.Values = map[string]string{}
@@ -293,6 +315,52 @@ func init() {
 	})
 }
 
+func init() {
+	trows = append(trows, trow{
+		Name: "lightpb.MemoryDevice/UpdateBrightness", Root: "Brightness", Flag: "delta",
+		W: mt.Mask{Paths: []string{"level_percent", "brightness_tween.total_duration", "preset"}},
+		MaskIgnored: true,
+		// "if there's a tween in progress, clear the tween props"
+		R: mt.Mask{Paths: []string{"target_level_percent", "brightness_tween"}},
+		// requests without preset and without tween: the plain path of the RPC (the other two start
+		// timers or replace the whole message)
+		Prepare: func(m proto.Message) {
+			b := m.(*traits.Brightness)
+			b.Preset, b.BrightnessTween = nil, nil
+		},
+		New: func() tserver {
+			d := lightpb.NewMemoryDevice()
+			return tserver{
+				update: func(m proto.Message, fm *fieldmaskpb.FieldMask, flag bool) (proto.Message, error) {
+					r, err := d.UpdateBrightness(ctxBg, &traits.UpdateBrightnessRequest{Name: "n", Brightness: m.(*traits.Brightness), UpdateMask: fm, Delta: flag})
+					if r == nil {
+						return nil, err
+					}
+					return r, err
+				},
+				get: func() proto.Message {
+					r, _ := d.GetBrightness(ctxBg, &traits.GetBrightnessRequest{Name: "n"})
+					return r
+				},
+			}
+		},
+		// every request: the level is capped to 0..100; delta: added to the stored level first
+		Effective: func(before, written proto.Message, flag bool) proto.Message {
+			b, w := before.(*traits.Brightness), proto.Clone(written).(*traits.Brightness)
+			if flag {
+				w.LevelPercent += b.LevelPercent
+			}
+			if w.LevelPercent < 0 {
+				w.LevelPercent = 0
+			}
+			if w.LevelPercent > 100 {
+				w.LevelPercent = 100
+			}
+			return w
+		},
+	})
+}
+
 func trowByName(n string) (trow, bool) {
 	for _, r := range trows {
 		if r.Name == n {
@@ -315,6 +383,13 @@ type tcase struct {
 	Trait string  `json:"trait"`
 	Setup []tcall `json:"earlier_calls"`
 	Call  tcall   `json:"call"`
+}
+
+func mkCallFor(row trow, m proto.Message, M mt.Mask, flag bool) tcall {
+	if row.Prepare != nil {
+		row.Prepare(m)
+	}
+	return mkCall(m, M, flag)
 }
 
 func mkCall(m proto.Message, M mt.Mask, flag bool) tcall {
@@ -408,11 +483,36 @@ func copyField(dst, src proto.Message, name string) {
 // judge evaluates the property on one trait call: the write-semantics monitor with the server's
 // documented writable fields, the request's mask and the message the flag asks to be written.
 func (c tcase) judge(row trow, mon *lib.Monitor, out tout) (derived []string) {
-	w := wcase{Root: row.Root, Site: "trait/" + row.Name, W: row.W, More: mt.NilMask(), M: c.Call.M, R: mt.NilMask(), input: c}
+	if !row.MaskIgnored || c.Call.M.Nil {
+		return c.judgeWith(row, c.Call.M, mon, out)
+	}
+	asStated := lib.NewMonitor("as-stated", "")
+	derived = c.judgeWith(row, c.Call.M, asStated, out)
+	if len(asStated.Violations) == 0 {
+		return derived
+	}
+	unmasked := lib.NewMonitor("unmasked", "")
+	c.judgeWith(row, mt.NilMask(), unmasked, out)
+	if len(unmasked.Violations) > 0 {
+		for _, v := range unmasked.Violations {
+			mon.Violate(v.Signature, v.What+" (judged as the same request without update_mask)", c, v.Expected, v.Observed)
+		}
+		return derived
+	}
+	v := asStated.Violations[0]
+	mon.Violate("C05/trait/"+row.Name+"/update-mask-ignored", "the RPC behaves as the same request without update_mask: "+v.What, c, v.Expected, v.Observed)
+	return derived
+}
+
+func (c tcase) judgeWith(row trow, M mt.Mask, mon *lib.Monitor, out tout) (derived []string) {
+	w := wcase{Root: row.Root, Site: "trait/" + row.Name, W: row.W, More: mt.NilMask(), M: M, R: mt.NilMask(), input: c}
+	if len(row.R.Paths) > 0 {
+		w.R = row.R
+	}
 	o := out.wout
 	if o.Panic == "" && o.Err == "" {
-		if c.Call.Flag && row.Effective != nil {
-			o.Written = row.Effective(o.Before, o.Written)
+		if row.Effective != nil {
+			o.Written = row.Effective(o.Before, o.Written, c.Call.Flag)
 		}
 		if row.Derived != nil {
 			derived = row.Derived(o.Before, o.After)
@@ -424,7 +524,7 @@ func (c tcase) judge(row trow, mon *lib.Monitor, out tout) (derived []string) {
 				copyField(o.Written, o.After, d)
 			}
 			// an empty mask changes nothing: derived fields follow from a change, there is none
-			if !c.Call.M.Nil && len(c.Call.M.Paths) == 0 && !proto.Equal(out.After, out.Before) {
+			if !M.Nil && len(M.Paths) == 0 && !proto.Equal(out.After, out.Before) {
 				mon.Violate("C05/"+w.Site+"/empty-mask/changed", "an empty non-nil update mask changed the message", c, mt.CanonMsg(out.Before), mt.CanonMsg(out.After))
 			}
 		}
@@ -437,13 +537,11 @@ func (c tcase) modelLine(row trow, out tout) string {
 	ty := schema.ID(rootByName(row.Root).MD())
 	src := out.Written
 	keys := "_"
-	if c.Call.Flag {
-		switch {
-		case len(row.IntKeys) > 0:
-			keys = strings.Join(row.IntKeys, ",")
-		case row.Effective != nil:
-			src = row.Effective(out.Before, out.Written)
-		}
+	switch {
+	case c.Call.Flag && len(row.IntKeys) > 0:
+		keys = strings.Join(row.IntKeys, ",")
+	case row.Effective != nil:
+		src = row.Effective(out.Before, out.Written, c.Call.Flag)
 	}
 	return fmt.Sprintf("iset %d %s %s %s %s %s _", ty, row.W.Enc(), c.Call.M.Enc(), mt.CanonMsg(out.Before), mt.CanonMsg(src), keys)
 }
@@ -567,7 +665,7 @@ func smallTraitCases() []tcase {
 		}
 		for _, fl := range flags {
 			for _, M := range ms {
-				out = append(out, tcase{Trait: row.Name, Setup: []tcall{mkCall(a, mt.NilMask(), false)}, Call: mkCall(b, M, fl)})
+				out = append(out, tcase{Trait: row.Name, Setup: []tcall{mkCallFor(row, a, mt.NilMask(), false)}, Call: mkCallFor(row, b, M, fl)})
 			}
 		}
 	}
@@ -605,7 +703,7 @@ func genTraitCase(g *mt.Gen) tcase {
 		} else {
 			m = g.Msg(md, r.New, focus)
 		}
-		return mkCall(m, genMask(), row.Flag != "" && g.R.Intn(2) == 0)
+		return mkCallFor(row, m, genMask(), row.Flag != "" && g.R.Intn(2) == 0)
 	}
 	c := tcase{Trait: row.Name}
 	for i, n := 0, g.R.Intn(3); i < n; i++ {
